@@ -4,7 +4,8 @@ from contracts import fidelity as F
 
 def units(tier):
     from contracts import udf_fid as UF
-    us = [Unit(F.MasteredUDF, {'script': s}) for s in sorted(F.UDF_SCRIPTS)]
+    us = [Unit(F.MasteredUDF, {'script': s}) for s in sorted(F.UDF_SCRIPTS) + F.random_udf_names(tier)]
+    us += [Unit(F.ReopenedUDF, {'script': s}) for s in sorted(F.UDF_SCRIPTS) + F.random_udf_names(tier)]
     for n in (0, 1, 5, 64, 254) if tier == 'quick' else range(0, 255):
         us.append(Unit(UF.FidPlacementStep, {'namelen': n}))
         us.append(Unit(UF.FIDLength, {'namelen': n}))
